@@ -2,6 +2,7 @@ package yqlib
 
 import (
 	"fmt"
+	"strings"
 
 	yaml "gopkg.in/yaml.v3"
 )
@@ -183,7 +184,7 @@ func (o *CandidateNode) MarshalYAML() (*yaml.Node, error) {
 }
 
 // emptyNotPlain: the node is written where the YAML encoder cannot leave a scalar empty (as a map key, or anywhere
-// inside a flow collection) and would write '' instead
+// inside a flow collection) and would write ” instead
 func (o *CandidateNode) marshalYAML(emptyNotPlain bool) (*yaml.Node, error) {
 	log.Debug("MarshalYAML to yaml: %v", o.Tag)
 	switch o.Kind {
@@ -199,6 +200,11 @@ func (o *CandidateNode) marshalYAML(emptyNotPlain bool) (*yaml.Node, error) {
 		if emptyNotPlain && target.Tag == "!!null" && target.Value == "" {
 			// a null written as nothing (`{a: }`, `? : 1`) would be printed as '' there and read back as a string
 			target.Value = "null"
+		}
+		if strings.HasPrefix(target.Value, "\n") && target.Style&(yaml.DoubleQuotedStyle|yaml.SingleQuotedStyle) == 0 {
+			// yaml.v3 writes a block scalar (its choice for plain text with line breaks) without the line
+			// break the text begins with: "\nb" would be read back as "b"
+			target.Style = target.Style&^(yaml.LiteralStyle|yaml.FoldedStyle) | yaml.DoubleQuotedStyle
 		}
 		return target, nil
 	case MappingNode, SequenceNode:
